@@ -18,6 +18,8 @@ CONSTANTS Clients,      \* e.g. {1, 2}
           RB,           \* capacity of recvChan (TCPMuxParams.ReadBufferSize), >= 1
           MaxLater,     \* packets a well-behaved client sends after its first frame
           MaxGet, MaxRm, MaxAdv, MaxReply,
+          StaleWatcher, \* FALSE: a watcher goroutine unlists only its own packet conn (the specification);
+                        \* TRUE: near miss - it unlists whatever is registered under its ufrag when it runs (F-C15a, repaired)
           MaxExt,       \* environment actions per behaviour (bounded exploration)
           MaxRaces      \* how many calls/client actions may start while the mux is still busy with earlier ones
 
@@ -186,10 +188,12 @@ FinishClose(s) == /\ CanFinish(s)
 WatWake(i) == /\ wat[i] = "wait" /\ pcs[i].closed /\ wat' = [wat EXCEPT ![i] = "lock"]
               /\ UNCHANGED <<cvars, sclosed, hc, hcT, hcP, rd, rdK, att, pcs, npc, map, mu, mclosed, lclosed, acc, wg, tim,
                              closers, rmS, clS, clTodo, handles, delivered, seenClosed, stale, gets, rms, adv, reps>>
-\* it removes and closes whatever is registered under its ufrag NOW - not necessarily its own packet conn
+\* removeConnByUfragAndLocalHost(ufrag, key, own): unlist and close the packet conn registered under the ufrag - if it
+\* still is this watcher's own one (with StaleWatcher: whatever is registered there now)
 WatRemove(i) == /\ wat[i] = "lock" /\ mu = "free"
                 /\ LET cur == map[pcs[i].uf] IN
-                     IF cur = 0 THEN wat' = [wat EXCEPT ![i] = "done"] /\ wg' = wg - 1 /\ UNCHANGED <<map, pcs, sclosed, closers, stale>>
+                     IF cur = 0 \/ (cur # i /\ ~StaleWatcher)
+                     THEN wat' = [wat EXCEPT ![i] = "done"] /\ wg' = wg - 1 /\ UNCHANGED <<map, pcs, sclosed, closers, stale>>
                      ELSE /\ map' = [map EXCEPT ![pcs[i].uf] = 0] /\ StartClose(WSlot(i), cur) /\ wat' = [wat EXCEPT ![i] = "closing"]
                           /\ stale' = (stale \/ cur # i) /\ UNCHANGED wg
                 /\ UNCHANGED <<cvars, hc, hcT, hcP, rd, rdK, att, npc, mu, mclosed, lclosed, acc, tim,
